@@ -1094,10 +1094,46 @@ def isnan(a):
     return _map(a, lambda v: (not core.is_sym(v)) and _math.isnan(v), bool_)
 
 
+class _Unusable:
+    def __init__(self, what):
+        self.what = what
+
+    def __getattr__(self, k):
+        raise HarnessError(f"use of {self.what}")
+
+
+class SSqrt(SR):
+    """sqrt(v) kept lazy (exponent model): only its binary exponent is ever asked for, which is
+    a threshold test on the radicand; any arithmetic use falls back to r >= 0, r*r = v."""
+
+    __slots__ = ("rad", "_e")
+
+    def __init__(self, rad):
+        self.rad = rad
+        self.bad = rad.bad
+        self.recip = None
+        self.sumsq = None
+        self._e = None
+
+    @property
+    def e(self):
+        if self._e is None:
+            E = core.ENG
+            r = E.fresh_real("sqrt", register=False)
+            E.solver.add(r.e >= 0, r.e * r.e == self.rad.e)
+            E._dirty = True
+            self._e = r.e
+        return self._e
+
+
 def _sqrt1(v):
+    if isinstance(v, SI):
+        v = SR(z3.ToReal(v.e))
     if not isinstance(v, SR):
         return _math.sqrt(v)
     E = core.ENG
+    if getattr(E, "sqrt_model", None) == "lazy":
+        return SSqrt(v)
     if v.sumsq is not None and getattr(E, "norm_model", "linear") == "linear":
         ab = [sabs(x) for x in v.sumsq]
         if len(ab) == 1:
@@ -1207,6 +1243,17 @@ def _frexp1(v):
         v = SR(z3.ToReal(v.e))
     E = core.ENG
     lo, hi = E.frexp_window
+    if isinstance(v, SSqrt):
+        # exponent of sqrt(R): 2^(k-1) <= sqrt(R) < 2^k  <=>  4^(k-1) <= R < 4^k ; the mantissa
+        # is sqrt(R)*2^-k, never used by the code under test
+        R = v.rad
+        E.solver.add(z3.Or(R.e == 0, z3.And(R.e >= core._rv(4.0 ** (lo - 1)), R.e < core._rv(4.0 ** hi))))
+        E._dirty = True
+        E.stats.inc("frexp_window_assumptions")
+        ee = z3.IntVal(0)
+        for k in range(lo, hi + 1):
+            ee = z3.If(z3.And(R.e >= core._rv(4.0 ** (k - 1)), R.e < core._rv(4.0 ** k)), z3.IntVal(k), ee)
+        return _Unusable("mantissa of a lazy sqrt"), SI(ee)
     a = sabs(v)
     E.solver.add(z3.Or(v.e == 0, z3.And(a.e >= core._rv(2.0 ** (lo - 1)), a.e < core._rv(2.0 ** hi))))
     E._dirty = True
